@@ -100,6 +100,18 @@ def run_history(res, cls, empties, ops):
                     order.append(x)
             else:
                 res.fail("get_label-raises", hist, r)
+        elif kind == "A":  # the public add: labels the class if it is new, answers nothing
+            x = op[1]
+            r = out_of(lambda: db.add(cls(x, x in empties)))
+            lines.append(f"A {x}")
+            outs.append("ok" if r is None else str(r))
+            if r is not None:
+                res.fail("add-raises", hist, str(r))
+            if x not in first_label:
+                first_label[x] = len(order)
+                order.append(x)
+            if len(db.comb_class_list) != len(order):
+                res.fail("add-relabels-a-known-class", hist, f"{len(db.comb_class_list)} entries for {len(order)} classes after add(class {x})")
         elif kind == "G":
             l = op[1]
             r = out_of(lambda: db.get_class(l))
@@ -162,7 +174,7 @@ def rand_case(rnd):
     empties = {x for x in range(n) if rnd.random() < 0.4}
     ops = []
     for _ in range(rnd.randint(1, 40)):
-        k = rnd.choice(["L", "L", "L", "G", "CC", "CL", "E", "EL", "S"])
+        k = rnd.choice(["L", "L", "L", "A", "G", "CC", "CL", "E", "EL", "S"])
         if k in ("G", "CL"):
             ops.append((k, rnd.randint(-3, n + 3)))
         else:
@@ -170,11 +182,67 @@ def rand_case(rnd):
     return empties, ops
 
 
+def searcher_worker(cfg):
+    """(b) the database as the searcher drives it (symmetry, inferral, factories): after a real search every cached
+    emptiness equals the class's own answer, labels are dense and looking a label up gives back the class"""
+    import signal
+
+    import speccheck
+    import specrun
+
+    signal.signal(signal.SIGALRM, speccheck._alarm)
+    signal.alarm(40)
+    out = {"cfg": cfg, "problems": [], "classes": 0, "cached": 0}
+    try:
+        specrun.quiet()
+        root, pack, db = specrun.build(cfg)
+        from comb_spec_searcher import CombinatorialSpecificationSearcher
+        from comb_spec_searcher.exception import SpecificationNotFound
+
+        s = CombinatorialSpecificationSearcher(root, pack, ruledb=db, expand_verified=cfg["expand_verified"])
+        specrun.quiet()
+        st = random.getstate()
+        random.seed(cfg["seed"])
+        try:
+            for _ in range(4):
+                if s.do_level():
+                    break
+        except SpecificationNotFound:
+            pass
+        except speccheck.Timeout:
+            raise
+        except Exception as exc:  # noqa: BLE001  (C04's matter)
+            out["note"] = specrun.exc_info(exc)
+        finally:
+            random.setstate(st)
+            specrun.quiet()
+        cdb = s.classdb
+        n = len(cdb.empty_list)
+        out["classes"] = n
+        for label in range(n):
+            c = cdb.get_class(label)
+            if cdb.get_label(c) != label:
+                out["problems"].append(("label-not-stable", f"class {c!r} stored under {label} is now labelled {cdb.get_label(c)}"))
+            cached = cdb.empty_list[label]
+            if cached is not None:
+                out["cached"] += 1
+                if bool(cached) != bool(c.is_empty()):
+                    out["problems"].append(("cached-emptiness-ne-class", f"label {label} {c!r}: cached {cached}, the class says {c.is_empty()}"))
+        if len(cdb.empty_list) != n:
+            out["problems"].append(("lookup-grows-the-database", f"{n} -> {len(cdb.empty_list)}"))
+    except speccheck.Timeout:
+        out["timeout"] = True
+    finally:
+        signal.alarm(0)
+    return out
+
+
 def run(tier, seed, factor=1):
     res = common.Result("C15")
-    res.rule = ("random histories (1-40 ops) of get_label/get_class/class-in/label-in/is_empty/set_empty over 1-7 classes "
+    res.rule = ("random histories (1-40 ops) of get_label/add/get_class/class-in/label-in/is_empty/set_empty over 1-7 classes "
                 "(40% empty), labels probed in -3..k+3, each history run without and with byte compression; "
-                "non-trivial = >=3 ops touching >=2 classes; distinct by (compression, empties, ops)")
+                "non-trivial = >=3 ops touching >=2 classes; distinct by (compression, empties, ops); (b) the databases of real searchers (4 levels, "
+                "symmetry/inferral/factory packs): cached emptiness vs the class, label stability")
     rnd = random.Random(seed * 31337 + 15)
     n = common.scale(tier, 2500, 40000) * factor
     text, metas = [], []
@@ -183,11 +251,28 @@ def run(tier, seed, factor=1):
         for cls in (K, KB):
             lines, outs = run_history(res, cls, empties, ops)
             res.case((cls.__name__, tuple(sorted(empties)), tuple(ops)),
-                     nontrivial=len(ops) >= 3 and len({o[1] for o in ops if o[0] in ("L", "S")}) >= 2)
+                     nontrivial=len(ops) >= 3 and len({o[1] for o in ops if o[0] in ("L", "S", "A")}) >= 2)
             for o in ops:
                 res.dist[f"op={o[0]}"] += 1
             text += lines
             metas.append((cls.__name__, empties, ops, outs))
+    # (b) through the searcher
+    import speccheck
+    import specrun
+
+    crnd = random.Random(seed * 7919 + 15)
+    cfgs = speccheck.make_configs(crnd, common.scale(tier, 60, 600) * factor)
+    for c in cfgs[::2]:
+        if len(c["alpha"]) == 2:
+            c["symmetry"] = True
+    for o in specrun.pool_map(searcher_worker, cfgs):
+        res.case(("searcher", repr(sorted(o["cfg"].items()))), nontrivial=o["cached"] >= 2)
+        res.dist["searcher-driven databases"] += 1
+        res.dist["searcher: cached emptiness values compared"] += o["cached"]
+        res.traces += 1
+        for sig, d in o["problems"][:3]:
+            res.fail(sig, o["cfg"], d)
+    specrun.quiet()
     out = common.run_driver("C15", "\n".join(text) + "\n")
     assert len(out) == len(text), (len(out), len(text))
     pos = 0
@@ -208,6 +293,9 @@ def search(tier, seed):
 
 def replay(case):
     inp = case["input"]
+    if "alpha" in inp:
+        o = searcher_worker(inp)
+        return {"signature": o["problems"][0][0], "input": inp, "detail": o["problems"][0][1]} if o["problems"] else None
     r = common.Result("C15")
     run_history(r, KB if inp["compress"] else K, set(inp["empties"]), [tuple(o) for o in inp["ops"]])
     return r.failures[0] if r.failures else None
